@@ -262,8 +262,8 @@ func (o *renderOpts) items(sb *strings.Builder, items []item) {
 	skipLabels := false
 	for k, it := range items {
 		o.filler(sb)
-		// layout only: the labels of the next instruction stand on their own line ABOVE this metadata comment
-		if it.T == "meta" && o.rich && !o.plain && k+1 < len(items) && items[k+1].T == "ins" && len(items[k+1].Labels) > 0 && o.r.Intn(2) == 0 {
+		// layout only: the labels of the next instruction stand on their own line ABOVE this metadata or ;assert comment
+		if (it.T == "meta" || it.T == "assert") && o.rich && !o.plain && k+1 < len(items) && items[k+1].T == "ins" && len(items[k+1].Labels) > 0 && o.r.Intn(2) == 0 {
 			for _, l := range items[k+1].Labels {
 				sb.WriteString(o.name(l))
 				if o.r.Intn(3) == 0 {
